@@ -37,6 +37,13 @@ static u64 dig_pdu(PDU& p, u64 h) {
     return h;
 }
 
+// marks: which sub-steps really completed (filled only by the sequential reference run on the main thread)
+static thread_local std::map<std::string, u64>* tl_marks = nullptr;
+static inline void mark(const char* k) { if (tl_marks) ++(*tl_marks)[k]; }
+template <class F> static u64 guarded(const char* what, u64 h, F f) {   // one refused sub-step must not hide the ones after it
+    try { h = f(h); mark(what); } catch (const std::exception& e) { h = mix(h, fnv(std::string(typeid(e).name()))); if (tl_marks) ++(*tl_marks)[std::string(what) + ":threw:" + typeid(e).name()]; }
+    return h;
+}
 static u64 op_parse(Rng& r) {
     u64 h = 1; const Bytes& s = g_seeds[r.below((u32)g_seeds.size())]; Bytes b = s;
     for (u32 k = r.below(3); k-- && !b.empty();) { u32 pos = r.below((u32)b.size()); switch (r.below(4)) { case 0: b[pos] ^= (u8)(1 << r.below(8)); break; case 1: b.resize(pos); break; case 2: b[pos] = r.byte(); break; default: b.push_back(r.byte()); } }
@@ -53,7 +60,18 @@ static u64 op_parse(Rng& r) {
     } catch (const malformed_packet&) { h = mix(h, 0xbad); }
     return h;
 }
-static u64 op_build(Rng& r) { PktGen g(r); std::unique_ptr<PDU> p(g.packet()); u64 h = dig_pdu(*p, 2); std::unique_ptr<PDU> c(p->clone()); return dig_pdu(*c, h); }
+static u64 op_build(Rng& r) {
+    PktGen g(r); int rk = 0; std::unique_ptr<PDU> p(g.packet(&rk)); u64 h = dig_pdu(*p, 2); std::unique_ptr<PDU> c(p->clone()); h = dig_pdu(*c, h);
+    // ... and parsed back from its own bytes through the entry point of its link type: generated packets nest tunnels, VLANs, label stacks, extension
+    // headers and every option family far more often than the unit tests' captures do (dispatch tables, allocator registries, per-protocol helpers)
+    const IP* ip = dynamic_cast<const IP*>(p.get());
+    if (!(ip && (uint32_t)ip->src_addr() == 0)) { try { Bytes y = p->serialize(); std::unique_ptr<PDU> q;
+        switch (rk) { case 0: q.reset(new EthernetII(y.data(), (u32)y.size())); break; case 1: q.reset(new Dot3(y.data(), (u32)y.size())); break; case 2: q.reset(new RadioTap(y.data(), (u32)y.size())); break; case 3: q.reset(Dot11::from_bytes(y.data(), (u32)y.size())); break;
+            case 4: q.reset(new SLL(y.data(), (u32)y.size())); break; case 5: q.reset(new Loopback(y.data(), (u32)y.size())); break; default: if (!y.empty() && (y[0] >> 4) == 6) q.reset(new IPv6(y.data(), (u32)y.size())); else q.reset(new IP(y.data(), (u32)y.size())); }
+        if (q) { h = dig_pdu(*q, h); mark("build:reparsed"); bool tunnel = false; int ipl = 0; for (const PDU* x = q.get(); x; x = x->inner_pdu()) if (x->pdu_type() == PDU::IP || x->pdu_type() == PDU::IPv6) ++ipl; tunnel = ipl >= 2; if (tunnel) mark("build:reparsed-with-ip-tunnel"); } }
+      catch (const std::exception& e) { h = mix(h, fnv(std::string(typeid(e).name()))); } }
+    return h;
+}
 static u64 op_dns(Rng& r) {
     DNS d; d.id((u16)r.next()); u64 h = 3;
     for (u32 k = 1 + r.below(6); k--;) { std::string n = "h" + std::to_string(r.below(50)) + ".example" + std::to_string(r.below(3)) + ".org";
@@ -96,13 +114,6 @@ static u64 op_follower(Rng& r) {
     pkt(true, ci + 1 + half, si + 1, TCP::ACK, Bytes(a.begin() + half, a.end())); pkt(true, ci + 1, si + 1, TCP::ACK, Bytes(a.begin(), a.begin() + half)); pkt(false, si + 1, ci + 1 + (u32)a.size(), TCP::ACK, b);
     pkt(true, ci + 1 + (u32)a.size(), si + 1 + (u32)b.size(), TCP::FIN | TCP::ACK, {}); pkt(false, si + 1 + (u32)b.size(), ci + 2 + (u32)a.size(), TCP::FIN | TCP::ACK, {});
     return mix(mix(h, got), cb);
-}
-// marks: which sub-steps really completed (filled only by the sequential reference run on the main thread)
-static thread_local std::map<std::string, u64>* tl_marks = nullptr;
-static inline void mark(const char* k) { if (tl_marks) ++(*tl_marks)[k]; }
-template <class F> static u64 guarded(const char* what, u64 h, F f) {   // one refused sub-step must not hide the ones after it
-    try { h = f(h); mark(what); } catch (const std::exception& e) { h = mix(h, fnv(std::string(typeid(e).name()))); if (tl_marks) ++(*tl_marks)[std::string(what) + ":threw:" + typeid(e).name()]; }
-    return h;
 }
 static u64 op_crypto(Rng& r) {
     u64 h = 7;
